@@ -87,6 +87,18 @@ def new_tables(repo) -> Set[str]:
     return shared_tables(repo) - set(inv["tables"])
 
 
+def _immutable_default(e) -> bool:
+    if isinstance(e, ast.Constant):
+        return True
+    if isinstance(e, ast.UnaryOp) and isinstance(e.operand, ast.Constant):
+        return True
+    if isinstance(e, ast.Tuple):
+        return all(_immutable_default(x) for x in e.elts)
+    if isinstance(e, (ast.Name, ast.Attribute)):
+        return True   # a named constant / enum member: the same object wherever it is written
+    return False
+
+
 # ------------------------------------------------------------------------------------------
 def _is_pure_arg(e) -> bool:
     if isinstance(e, ast.Constant):
@@ -539,6 +551,10 @@ class Inliner:
             if p not in binding:
                 if p not in defaults:
                     raise NotInlinable("missing argument %s" % p)
+                if not _immutable_default(defaults[p]):
+                    # a default that is not an immutable constant is ONE object shared by all calls: writing its expression
+                    # out at the call site would make it a fresh object per call
+                    raise NotInlinable("mutable default argument %s" % p)
                 binding[p] = defaults[p]
         assigned = _assigned_names(fn)
         self.counter += 1
